@@ -515,7 +515,8 @@ func identityProp(rec *stats.Recorder) func(rt *rapid.T) {
 		case "wildcard":
 			c.Idents = []Ident{{Prefix: "*", Text: "*", Kind: "wildcard"}}
 		case "unknown-prefix-only":
-			c.Idents = []Ident{{Prefix: "custom.scheme", Text: "custom.scheme:" + render(base, drawRender(rt, len(base), "unk")), Kind: "unknown-prefix"}}
+			fp := foreignPrefix(rt)
+			c.Idents = []Ident{{Prefix: fp, Text: fp + ":" + render(base, drawRender(rt, len(base), "unk")), Kind: "unknown-prefix"}}
 		default:
 			// decoys: identities that never overlap with the main one (distinct O), and unknown prefixes
 			for d := 0; d < rapid.IntRange(0, 2).Draw(rt, "decoys"); d++ {
@@ -523,7 +524,8 @@ func identityProp(rec *stats.Recorder) func(rt *rapid.T) {
 				c.Idents = append(c.Idents, Ident{Prefix: "x509.subject", AVs: avs, Kind: "decoy", Text: "x509.subject:" + render(avs, drawRender(rt, 3, "decoy"))})
 			}
 			if rapid.IntRange(0, 3).Draw(rt, "unknownPrefix") == 0 {
-				c.Idents = append(c.Idents, Ident{Prefix: "custom.scheme", Text: "custom.scheme:" + render(base, drawRender(rt, len(base), "unk")), Kind: "unknown-prefix"})
+				fp := foreignPrefix(rt)
+				c.Idents = append(c.Idents, Ident{Prefix: fp, Text: fp + ":" + render(base, drawRender(rt, len(base), "unk")), Kind: "unknown-prefix"})
 			}
 			perm := rapid.Permutation(seq(len(c.Idents))).Draw(rt, "identOrder")
 			shuffled := make([]Ident, len(c.Idents))
@@ -746,4 +748,10 @@ func TestC04_LateEdit(t *testing.T) {
 		rec.Case(cl, true, stats.Fingerprint("late", strings.Join(c.Identities, "|"), c.Format), func() any { return c })
 		judge(rt, c)
 	})
+}
+
+// foreignPrefix draws an identity type that is not x509.subject - including types whose name
+// merely begins or ends like it (the type is the whole text before the first colon).
+func foreignPrefix(rt *rapid.T) string {
+	return rp.Pick(rt, "foreignPrefix", "custom.scheme", "custom.scheme", "x509.subjectAltName", "x509.subject.v2", "x509.subjects", "X509.subject", "x509.Subject", "my.x509.subject", "x509.subject ")
 }
